@@ -98,7 +98,7 @@ def arctan(x):
 def arccos(x):
     if not _isobj(x):
         return _np.arccos(x)
-    raise OutsideFragment("arccos of a symbolic value")
+    return _map(x, lambda v: S.transc('acos', _no_angle(v)), _np.arccos)
 
 
 def abs_(x):
@@ -193,18 +193,54 @@ def interp(x, xp, fp, **kw):
     return out if out.shape else out[()]
 
 
+def _max_flat(flat):
+    """maximum of a flat list of terms.  Constants are compared directly; entries that are constant multiples c_i * P of
+    one common term P are ordered by a single decision on the sign of P; otherwise arg-max path split."""
+    flat = [_elem(v) for v in flat]
+    if all(v.is_const() for v in flat):
+        return max(flat, key=lambda v: v.cval())
+    base = None
+    coefs = []
+    for v in flat:
+        if not v.p:
+            coefs.append(Fraction(0))
+            continue
+        c, q = S.p_normalize(v.p)
+        if base is None:
+            base = q
+        elif q != base:
+            coefs = None
+            break
+        coefs.append(c)
+    if coefs is not None and base is not None:
+        pos = bool(RF(base) > 0)
+        pick = max(range(len(flat)), key=lambda i: coefs[i]) if pos else min(range(len(flat)), key=lambda i: coefs[i])
+        return flat[pick]
+    fkey = tuple(S.rf_key(v) for v in flat)
+    for i in range(len(flat) - 1):
+        if S.PATH.decide(('argmax', i, fkey), ('argmax', i, _np.array(flat, dtype=object))):
+            return flat[i]
+    return flat[-1]
+
+
 def max_(x, axis=None, **kw):
     if not _isobj(x):
         return _np.max(x, axis=axis, **kw)
-    if axis is not None:
-        raise OutsideFragment("np.max(axis=) of symbolic values")
-    flat = _np.asarray(x, dtype=object).reshape(-1)
-    if all(isinstance(v, RF) and v.is_const() for v in flat):
-        return max(flat, key=lambda v: v.cval())
-    for i in range(len(flat) - 1):
-        if S.PATH.decide(('argmax', i), ('argmax', i, flat)):
-            return flat[i]
-    return flat[-1]
+    a = _np.asarray(x, dtype=object)
+    if axis is None:
+        return _max_flat(a.reshape(-1))
+    a = _np.moveaxis(a, axis, 0)
+    out = _np.empty(a.shape[1:], dtype=object).view(S.SymArray)
+    for idx in (_np.ndindex(*a.shape[1:]) if a.shape[1:] else [()]):
+        col = [_elem(v) for v in a[(slice(None),) + idx]]
+        if all(v.is_const() for v in col):
+            out[idx] = max(col, key=lambda v: v.cval())
+        else:
+            # column maximum along an axis: an opaque function of the column (no path split); its value is used only
+            # by components whose partials are delegated to the framework
+            from . import helpers
+            out[idx] = helpers.fun_vec(helpers.NPMAX, [_np.array(col, dtype=object)])
+    return out if out.shape else out[()]
 
 
 def min_(x, axis=None, **kw):
